@@ -284,10 +284,16 @@ fn crash_targets(ctx: &Ctx, rep: &mut Report, mode: Mode, rec: &Recorded, work: 
 			}
 	};
 	let max_targets = ctx.tier.pick(14, 10_000);
+	// the handle goes away while the log being appended to holds unsynced records and an older
+	// record is still waiting in another (possibly higher-numbered) file: recovery must cope
+	let is_busy_restart = |t: &(usize, &'static str)| -> bool {
+		t.1 == "open" && matches!(rec.acts[t.0], Act::Restart) && rec.shape_before[t.0].contains("a1") && !rec.shape_before[t.0].contains("r0")
+	};
 	if targets.len() > max_targets {
-		let (mut keep, mut rest): (Vec<_>, Vec<_>) = targets.into_iter().partition(|t| is_reclaim(t));
+		let (mut keep, mut rest): (Vec<_>, Vec<_>) = targets.into_iter().partition(|t| is_reclaim(t) || is_busy_restart(t));
 		rng.shuffle(&mut keep);
-		keep.truncate(4);
+		keep.sort_by_key(|t| !is_busy_restart(t));
+		keep.truncate(5);
 		rng.shuffle(&mut rest);
 		rest.truncate(max_targets.saturating_sub(keep.len()));
 		keep.extend(rest);
